@@ -16,6 +16,7 @@
 -/
 import EnrVerif.Proofs.StepLemmas
 import EnrVerif.Proofs.ToyScheme
+import EnrVerif.Proofs.Examples
 
 namespace EnrVerif
 
@@ -88,6 +89,42 @@ example : step tinyS rMax (.setUdp4 30303) pk0 (some []) = (.err .seqTooHigh, rM
 /-- the failed calls leave the valid record `r0` valid and verifying -/
 example : (step tinyS r0 (.removeKey [120]) pk1 none).2.verify tinyS = .ok true :=
   step_error_still_verifies tinyS r0 _ pk1 none .signingError (verify_of_Valid r0_valid) rfl
+
+/-! ### non-vacuity, continued: the remaining theorems on the same records -/
+
+/-- everything before the signing call of `set_udp4(30303)` on `r0` succeeds: the prepared record is
+    `r1` still carrying `r0`'s signature -/
+example : prepare tinyS r0 (.setUdp4 30303) pk0 = .ok ⟨{ r1 with sig := r0.sig }, .prevPort none⟩ :=
+  rfl
+
+/-- `signer_failure_signingError` on that call -/
+example : step tinyS r0 (.setUdp4 30303) pk0 none = (.err .signingError, r0) :=
+  signer_failure_signingError tinyS r0 _ pk0 ⟨{ r1 with sig := r0.sig }, .prevPort none⟩ rfl
+
+set_option maxRecDepth 100000 in
+/-- `oversize_signature_is_error`: a signer answering with 300 bytes; the 325-byte record is refused
+    and `r0` is unchanged -/
+example : step tinyS r0 (.setUdp4 30303) pk0 (some (List.replicate 300 0)) =
+    (.err .exceedsMaxSize, r0) :=
+  oversize_signature_is_error tinyS r0 _ pk0 ⟨{ r1 with sig := r0.sig }, .prevPort none⟩
+    (List.replicate 300 0) rfl (by decide)
+
+/-- `step_error_same_bytes` on the failed calls: the same 18 bytes before and after -/
+example : (step tinyS r0 (.insertRaw kTcp (encBytes [1, 2, 3])) pk0 (some [])).2.encode =
+    [209, 132, 1, 2, 3, 13, 1, 130, 105, 100, 130, 118, 52, 116, 131, 1, 2, 3] :=
+  ((step_error_same_bytes tinyS r0 _ pk0 (some []) (.invalidRlp .overflow) rfl).1).trans r0_encode
+
+/-- `step_error_still_valid` / `signer_failure_is_error` -/
+example : Valid tinyS (step tinyS r0 (.removeKey [120]) pk1 none).2 :=
+  step_error_still_valid tinyS r0 _ pk1 none .signingError r0_valid rfl
+
+example : ∃ e, (step tinyS rMax (.setUdp4 30303) pk0 none).1 = .err e ∧
+    (step tinyS rMax (.setUdp4 30303) pk0 none).2 = rMax :=
+  signer_failure_is_error tinyS rMax _ pk0
+
+/-- `step_changed_only_if_ok`: the call `call1` changed `r0` (into `r1`), so it returned `Ok` -/
+example : ∃ ret, (step tinyS r0 call1.op call1.pk call1.oracle).1 = .ok ret :=
+  step_changed_only_if_ok tinyS r0 _ _ _ (by rw [step1_ok]; decide)
 
 #print axioms step_error_unchanged
 #print axioms step_error_same_bytes
